@@ -30,6 +30,7 @@ type Solver struct {
 	depth    int
 	dead     bool
 	scriptSz int
+	lastDur  time.Duration
 }
 
 func solverArgs(name string, timeoutMs int) (string, []string) {
@@ -132,7 +133,8 @@ func (s *Solver) Pop()  { s.Send("(pop 1)"); s.depth-- }
 func (s *Solver) Check() string {
 	t0 := time.Now()
 	lines, err := s.roundTrip("(check-sat)")
-	s.Time += time.Since(t0)
+	s.lastDur = time.Since(t0)
+	s.Time += s.lastDur
 	s.Queries++
 	res := "unknown"
 	if err != nil {
